@@ -85,4 +85,14 @@ TEXT = {
   "level_text": "Seeded exploration biased towards diverged local/remote histories, skewed node clocks (descendants older than ancestors), tags moved on the remote, --force / +refspec / --ff / --no-ff / --ff-only; checks: non-forced moves go to descendants only, tags never clobbered, rejections reported with the ref untouched, fast-forward lands exactly on the other commit, reflog entries carry the true old/new, pushes never ask for a non-fast-forward or tag move without force.",
   "level_note": _T + " Remote-tracking refs are updated through the '+refs/heads/*:refs/remotes/origin/*' refspec that `wrgl remote add` configures, i.e. explicitly forced, as in git.",
  },
+ "C12": {
+  "technique": "deterministic simulation of prune (library and in-process CLI prune/gc) on generated repositories against a reachability model computed from the raw store",
+  "level_text": "Seeded exploration: commit DAG <=16 over tables sharing blocks, refs of every kind (heads, tags, remote-tracking, open-transaction refs, custom), shallow commits whose table was never fetched, a random subset of refs deleted, prune run twice; reachable commits keep commit/table/index/profile/blocks/block indices byte-identical and sound, unreachable commits and the tables/blocks referenced only by them are gone, second prune writes nothing, no panic. Crash-during-prune is enumerated under C13.",
+  "level_note": _T + " Garbage that no commit or removed table references (e.g. blocks left by a failed ingest) is outside the statement and not judged.",
+ },
+ "C17": {
+  "technique": "corruption as a fault at the disk and wire seams of the simulator: stored values / packfiles / encoded streams are bit-flipped, truncated, given inflated counts or wrong labels and read through every reader; replies of the simulated remote are truncated or bit-flipped during real fetch/pull/push; panic, hang and allocation are observed per call",
+  "level_text": "Seeded, structure-aware corruption (not coverage-guided fuzzing): one corruption per case of one stored object of a real generated repository (raw or inside the s2 frame), of a real packfile fed to ObjectReceiver.Receive, or of one of 9 encoded stream kinds; plus the multi-node run with corrupted replies. Oracle: returns, no panic in any goroutine (goroutine panics kill the worker and are attributed to the seed), allocation <= 64 x input + 16 MiB, stored objects after a rejected packfile are keyed by their hash, decodable and pass I1-I3, success of a command implies the C09 postcondition.",
+  "level_note": _T + " Open finding C17-s2-block-length (s2.Decode allocates the announced block length) is classified separately and printed as KNOWN-FINDING.",
+ },
 }
